@@ -1,5 +1,6 @@
 """C18 Share links round-trip (DESIGN 4, C18)."""
 import base64
+import copy
 import itertools
 import json
 import re
@@ -16,8 +17,8 @@ RULE = (
     "values of 'compact'; every length 0..600 of three fixed fillers (repetitive, incompressible-looking, unicode) so that every "
     "padding length (encoded length mod 4 in {0,2,3}) and the characters '+', '/' and '=' all occur in the un-substituted base64; "
     "a size ladder (2^k - 1, 2^k, 2^k + 1 for k = 10..20, up to 1 MiB, compressible and incompressible fillers); nested JSON values (lists, numbers, booleans, null, nested dicts, empty dict) and all option-name keys.  Oracle: "
-    "decode_data(encode_data(d)) == d, the encoded text matches [A-Za-z0-9_-]*, and the encoded text is a pure function of d (two "
-    "calls agree).  distinct_nontrivial counts dictionaries whose plain base64 contained '+', '/' or '=' (the substitutions were "
+    "decode_data(encode_data(d)) == d, the encoded text matches [A-Za-z0-9_-]*, the encoded text is a pure function of d (two "
+    "calls agree), and decoding is a pure function of the link: after the decoded value has been edited in place at every level, decoding the same link again still gives d (and d itself is untouched).  distinct_nontrivial counts dictionaries whose plain base64 contained '+', '/' or '=' (the substitutions were "
     "exercised)."
 )
 ASSUME = ["only dictionaries that Python's json module itself round-trips are generated (json.loads(json.dumps(d)) == d): string keys; infinities included, NaN excluded because NaN != NaN; a high surrogate directly followed by a low surrogate excluded because JSON reads the two escapes back as one astral character"]
@@ -32,6 +33,18 @@ def fillers(n):
         "".join(chr(33 + (i * 37 + (i * i) % 11) % 90) for i in range(n)),
         ("é€\U0001F680d0.Setting = " * (n // 16 + 1))[:n],
     ]
+
+
+def _scribble(x):
+    """Edit a decoded value in place, at every level."""
+    if isinstance(x, dict):
+        for v in list(x.values()):
+            _scribble(v)
+        x["__edited__"] = 1
+    elif isinstance(x, list):
+        for v in x:
+            _scribble(v)
+        x.append("edited")
 
 
 def run_case(case):
@@ -62,6 +75,19 @@ def run_case(case):
         if back != d:
             out["symptom"] = "roundtrip-mismatch"
             out["detail"] = {"dict": d, "encoded": e, "decoded": back}
+            break
+        # the receiver edits what it decoded (code, options, a nested list); decoding the same link again must still give d
+        snapshot = copy.deepcopy(d)
+        _scribble(back)
+        try:
+            again = decode_data(e)
+        except Exception as ex:  # noqa: BLE001
+            out["symptom"] = "raised:" + type(ex).__name__
+            out["detail"] = {"dict": d, "exception": repr(ex)[:300], "step": "second decode"}
+            break
+        if again != snapshot or d != snapshot:
+            out["symptom"] = "second-decode-differs"
+            out["detail"] = {"dict": snapshot, "encoded": e, "decoded_again": again, "input_after": d}
             break
         if not isinstance(e, str) or not URLSAFE.match(e):
             out["symptom"] = "not-url-safe"
